@@ -451,10 +451,51 @@ fn build_sets(
     out
 }
 
+/// Header "sessions". Independent random header words never produce what real exporters
+/// send: one source id / observation domain for a whole stream and sequence numbers that
+/// move in small steps (with the occasional late, duplicated or skipped packet, and the
+/// wrap-around at u32::MAX). In two plans out of three - decided by the first V9/IPFIX
+/// header of the plan - the sequence number and source id words of all V9 and IPFIX packets
+/// are rewritten that way; the plan's own words only steer the steps.
+struct Session {
+    mode: u32,
+    counter: u32,
+    source: u32,
+    started: bool,
+}
+impl Session {
+    fn next(&mut self, first_word: u32, seq_word: u32, src_word: u32) -> (u32, u32) {
+        if !self.started {
+            self.started = true;
+            self.mode = first_word % 3;
+            self.counter = if self.mode == 2 { u32::MAX - seq_word % 8 } else { seq_word };
+            self.source = src_word;
+            return (if self.mode == 0 { seq_word } else { self.counter }, src_word);
+        }
+        if self.mode == 0 {
+            return (seq_word, src_word);
+        }
+        let seq = match seq_word % 8 {
+            0 => self.counter,                                           // duplicate number
+            1 => self.counter.wrapping_sub(1 + (seq_word >> 3) % 4),     // a late packet
+            2 => {
+                self.counter = self.counter.wrapping_add(2 + (seq_word >> 3) % 60); // a gap
+                self.counter
+            }
+            _ => {
+                self.counter = self.counter.wrapping_add(1);
+                self.counter
+            }
+        };
+        (seq, if src_word % 4 == 0 { self.source ^ 1 } else { self.source })
+    }
+}
+
 pub fn build(plan: &StreamPlan, o: &BuildOpts) -> Built {
     let mut cache = Cache::default();
     let mut calls = vec![];
     let mut data_records = 0usize;
+    let mut session = Session { mode: 0, counter: 0, source: 0, started: false };
     for cp in &plan.calls {
         let mut packets = vec![];
         let single = cp.len() == 1;
@@ -482,6 +523,8 @@ pub fn build(plan: &StreamPlan, o: &BuildOpts) -> Built {
                         so.n_sets
                     };
                     let mut w = W::default();
+                    let (seq, src) = session.next(hdr[0], hdr[2], hdr[3]);
+                    let hdr = &[hdr[0], hdr[1], seq, src];
                     enc_v9_header(&mut w, count as u16, hdr);
                     w.bytes(&so.bytes);
                     data_records += so.n_data_records;
@@ -490,6 +533,8 @@ pub fn build(plan: &StreamPlan, o: &BuildOpts) -> Built {
                 PktPlan::Ipfix { hdr, sets } => {
                     let so = build_sets(Proto::Ipfix, &plan.pool, sets, &mut cache.ipfix, o);
                     let mut w = W::default();
+                    let (seq, src) = session.next(hdr[0], hdr[1], hdr[2]);
+                    let hdr = &[hdr[0], seq, src];
                     enc_ipfix_header(&mut w, (16 + so.bytes.len()) as u16, hdr);
                     w.bytes(&so.bytes);
                     data_records += so.n_data_records;
